@@ -99,7 +99,8 @@ theorem list_isEmpty_iff_forall {α : Type} (l : List α) : l.isEmpty = true ↔
 /-- **`compile_correct`, flat fragment.**  Programs: `languagesystem` statements followed by feature
     blocks whose statements are `lookupflag` and rule statements; every lookup of the program (run of
     rules of one type under one flag) is a single, multiple or alternate substitution or a single
-    positioning lookup in which no glyph is targeted twice; no single rule stands next to a multiple
+    positioning lookup in which no glyph is targeted twice, or a ligature substitution lookup in
+    which no component sequence is given twice (`GsubRunOk`, `GposRunOk`); no single rule stands next to a multiple
     rule in one run (`NoMixFrom`); flags are normalised with attachment classes from the pairwise
     disjoint family `U`; GDEF entries are distinct.  Then for every declared language system, every
     feature set, every alternate selector and EVERY glyph string, the compiled tables shape the
@@ -108,9 +109,7 @@ theorem compile_correct_flat (fx : Fixes) (p : Program) (ls : List (Tag × Tag))
     (U : List (List Glyph))
     (htops : p.tops = lsTops ls ++ featTops fs)
     (hbodies : ∀ x ∈ fs, FlatBody x.2 ∧ FlagsOk U x.2 ∧ NoMixFrom {} x.2)
-    (hents : ∀ e ∈ Src.entries p,
-      ((headKind e.lookup.rules).isMapGsub = true ∨ headKind e.lookup.rules = .spos) ∧
-      (e.lookup.rules.flatMap Wf.targets).Nodup)
+    (hents : ∀ e ∈ Src.entries p, GsubRunOk e.lookup.rules ∨ GposRunOk e.lookup.rules)
     (hgdef : (p.gdef.map (·.1)).Nodup)
     (hU1 : ∀ c ∈ U, c.Nodup) (hU2 : ∀ c ∈ U, ∀ c' ∈ U, c ≠ c' → ∀ g ∈ c, g ∉ c')
     (script lang : Tag) (hreg : (script, lang) ∈ Src.langsysOf p.tops)
